@@ -11,7 +11,7 @@
    - utf8_encode / utf8_decode: RFC 3629 (str.encode() in addcredentials and
      the server reading the credentials back). *)
 From SV Require Import Lib.Base.
-Open Scope N_scope.
+Local Open Scope N_scope.
 
 Definition bytes := list N.
 Definition byte_ok (b : N) : bool := b <? 256.
